@@ -1,4 +1,4 @@
-import N2k.Lemmas.GroupFunctionPending
+import N2k.Lemmas.GroupFunctionRun
 /-!
 # C09 — Group-function (PGN 126208) requests and commands are answered and take effect
 
@@ -425,5 +425,62 @@ example : ∃ act : Act, act ≠ .serve60928 ∧ ∀ dest data lo up si, act ≠
   ⟨.serveProduct 7 false, by simp, by simp⟩
 /-- value byte 0xff for a commanded instance field is the value "all bits set", not "not commanded" -/
 example : cmdVals [.instanceLower 0xff] (0xff, 0xff, 0xff) = (7, 0xff, 0xff) ∧ cmdVals [.instanceUpper 0xff] (0xff, 0xff, 0xff) = (0xff, 31, 0xff) := by decide
+
+/-! ## histories -/
+
+/-- **C09_history_answers.** From any reachable state (`Inv`: claiming node, chain with a default handler, one attribute
+record per device) and after ANY history `pre` of received group functions (any function code, PGN, destination, length),
+polls and clock advances, the next received message `m` is treated as the property says:
+(a) an Acknowledge / Read Reply / Write Reply, or a broadcast Command / Read / Write, changes nothing at all;
+(b) nothing sent to the global address is ever acknowledged by any device;
+(c) a Request / Command / Read / Write addressed to device `i` makes exactly one decision, by that device, and it is an
+answer: the requested PGN, or exactly one Acknowledge echoing PGN and pair count (with the supported command's effect). -/
+theorem C09_history_answers (g : GSt) (hinv : Inv g) (pre : List Ev) (m : Msg) :
+    ((parseFc m = 2 ∨ parseFc m = 4 ∨ parseFc m = 6) → stepEv (run g pre) (.rx m) = run g pre)
+    ∧ ((parseFc m = 1 ∨ parseFc m = 3 ∨ parseFc m = 5) → m.dst = 255 → stepEv (run g pre) (.rx m) = run g pre)
+    ∧ (m.dst = 255 → ∀ i, (decideAct (run g pre) m i).ackData = none)
+    ∧ (∀ i, m.pgn = 126208 → m.dst ≠ 255 → findDev (run g pre).s.devs m.dst = some i →
+        (parseFc m = 0 ∨ parseFc m = 1 ∨ parseFc m = 3 ∨ parseFc m = 5) →
+        evLog (run g pre) (.rx m) = [(i, decideAct (run g pre) m i)]
+        ∧ (decideAct (run g pre) m i).answers m.src (parsePgn m) (pairsOf m) (parseFc m)) := by
+  have hk := run_inv g hinv pre
+  refine ⟨fun h => C09_never_answer_replies _ m h, fun h hd => C09_broadcast_ignored _ m h hd,
+    fun hd i => C09_broadcast_never_acknowledged _ m i hd, ?_⟩
+  intro i hpgn hdst hdev hfc
+  obtain ⟨k1, k2, k3⟩ := hk
+  have hlt := findDev_lt hdev
+  have hd : (run g pre).s.devs[i]? = some ((run g pre).s.devs[i]'hlt) := List.getElem?_eq_getElem hlt
+  have hlt' : i < (run g pre).attrs.length := by rw [k3]; exact hlt
+  have ha : (run g pre).attrs[i]? = some ((run g pre).attrs[i]'hlt') := List.getElem?_eq_getElem hlt'
+  refine ⟨?_, (C09_addressed_answered _ m i _ _ hd ha k1 hpgn hdev hdst hfc k2).2⟩
+  simp only [evLog, k1, hpgn, hdst, hdev]
+  simp
+
+/-- **C09_history_configuration.** The configuration state (installation descriptions and manufacturer information;
+per device: device instance, system instance, heartbeat interval and offset) after ANY history equals the fold, in
+order, of the logged decisions over the initial configuration, where only three decisions have an effect (`applyAct`):
+the 60928 command (`instUpd`), the 126998 command (`Conf.write` per written description) and an accepted heartbeat
+request (`hbUpd`); requests, Acknowledges, refused or unsupported commands, broadcasts, replies, polls, delayed address
+claims and clock advances change nothing of it. So accepted commands take effect exactly once, in order. -/
+theorem C09_history_configuration (g : GSt) (evs : List Ev) :
+    cfgOf (run g evs) = applyLog (cfgOf g) (runLog g evs) := run_cfg evs g
+
+/-- the decisions without effect on the configuration -/
+theorem C09_only_commands_change_configuration (c : Cfg) (i : Nat) (act : Act)
+    (h1 : ∀ dest data lo up si, act ≠ .cmd60928 dest data lo up si) (h2 : ∀ dest data ws, act ≠ .cmd126998 dest data ws)
+    (h3 : ∀ iv o, act ≠ .serveHeartbeat iv o) : applyAct c i act = c := by
+  cases act <;> first | rfl | (exact absurd rfl (h1 _ _ _ _ _)) | (exact absurd rfl (h2 _ _ _)) | (exact absurd rfl (h3 _ _))
+
+/-- non-vacuity: a command (device instance lower := 5 on device 1), a request that reads the commanded value back
+(served), a broadcast command (ignored) -/
+def demoHistory : List Ev :=
+  [.rx { prio := 3, pgn := 126208, src := 7, dst := 35, len := 8, data := cmdHeader 60928 8 1 ++ [3, 5] },
+   .rx { prio := 3, pgn := 126208, src := 7, dst := 35, len := 13, data := reqHeader 60928 0xffffffff 0xffff 1 ++ [3, 0xfd] },
+   .rx { prio := 3, pgn := 126208, src := 7, dst := 255, len := 8, data := cmdHeader 60928 8 1 ++ [3, 1] }]
+
+example : Inv demoSt := ⟨rfl, ⟨.base 0, by decide, rfl⟩, rfl⟩
+example : runLog demoSt demoHistory =
+    [(1, .cmd60928 7 [1 + 1, 0x00, 0xee, 0x00, 0, 1, 0xf0] 5 0xff 0xff), (1, .serve60928), (0, .nothing), (1, .nothing)] := by decide
+example : (applyLog (cfgOf demoSt) (runLog demoSt demoHistory)).devs = [⟨0x2b, 5, 60000, 10000⟩, ⟨0x2d, 5, 60000, 10000⟩] := by decide
 
 end N2k.C09
